@@ -1326,6 +1326,15 @@ func (c *Component) installInMemoryState(sess *SessionState) {
 		if sess.lcp != nil {
 			sess.lcp.FSM().Restore()
 		}
+		if sess.IPv4Address != nil && !isUsableSubscriberIPv4(sess.IPv4Address) {
+			// Same rule as startNCP: only a usable IPv4 address is an assignment.
+			// Restoring IPCP to Opened around 0.0.0.0 or a non-IPv4 value would
+			// leave it in its "nothing to assign" mode, in which a renegotiating
+			// CPE gets whatever address it proposes.
+			c.logger.Warn("Restored session has no usable IPv4 address, IPCP not restored",
+				"session_id", sess.SessionID, "address", sess.IPv4Address.String())
+			sess.IPv4Address = nil
+		}
 		if sess.ipcp != nil && sess.IPv4Address != nil {
 			// initPPP built a fresh IPCP object: without the assignment it
 			// would run in its "nothing to assign" mode and acknowledge any
